@@ -8,6 +8,7 @@ import Oracle.TypeExpr
 import Oracle.Literal
 import Oracle.SampleMd
 import Oracle.Tokenizer
+import Oracle.Driver
 open Oracle
 
 /-- a line is `(<stream> payload...)`; the answer is one S-expression -/
@@ -19,6 +20,7 @@ def handle (line : String) : String :=
     | "slice.hist" => toString (Oracle.Slice.handle payload)
     | "c11.scan" | "c11.interp" | "c11.unquote" | "c11.sprintf" | "c11.lit" => toString (Oracle.Literal.handle stream payload)
     | "tok.scan" | "tok.stream" => toString (Oracle.Tokenizer.handle stream payload)
+    | "c16.driver" => toString (Oracle.Driver.handle payload)
     | "c18.run" => toString (Oracle.SampleMd.handle payload)
     | "c15.type" => toString (Oracle.TypeExpr.handle payload)
     | "c09.match" => toString (Oracle.Exhaust.handle payload)
